@@ -502,6 +502,15 @@ func genConcTasks(t *sim.Tape) [][]concOp {
 			}
 		}
 		rec := append([]uint32(nil), t.Rec[start:]...)
+		if t.Bool(1, 2) {
+			// ... and on the very same input values (one font, one metrics
+			// object, one byte slice handed to all callers: the library only
+			// reads its inputs)
+			for i := 1; i < n; i++ {
+				tasks[i] = tasks[0]
+			}
+			return tasks
+		}
 		for i := 1; i < n; i++ {
 			rt := sim.ReplayTape(rec)
 			for j := 0; j < k; j++ {
